@@ -184,6 +184,8 @@ impl Snapshot {
 		let active = guardian::ArcRwLockReadGuardian::take(Arc::clone(&core.active_memtable))?;
 		let immutable =
 			guardian::ArcRwLockReadGuardian::take(Arc::clone(&core.immutable_memtables))?;
+		#[cfg(feature = "verif")]
+		crate::verif::point("iter.state.after_immutables");
 		let manifest = guardian::ArcRwLockReadGuardian::take(Arc::clone(&core.level_manifest))?;
 
 		Ok(IterState {
